@@ -69,6 +69,7 @@ FLAGS = {
     # assertion-enabled, sanitised
     "asan": ["-O1", "-g", "-fsanitize=address,undefined", "-fno-sanitize-recover=undefined",
              "-fno-omit-frame-pointer"],
+    "asanl": ["-O1", "-fsanitize=address,undefined", "-fno-sanitize-recover=undefined"],      # no debug info: small binaries
     "asan0": ["-O0", "-g", "-fsanitize=address,undefined", "-fno-sanitize-recover=undefined",
               "-fno-omit-frame-pointer"],
     # what the baseline suite uses
